@@ -23,8 +23,8 @@ from ..subject import repo_path, setup_sys_path
 
 RULE = (
     "(A) schedules: each case forks a child from a pristine parent (package imported, no converter ever created); N in "
-    "{2,3,4} threads call get_converter(); a sys.settrace hook makes every line of _resolve_forward_references and every "
-    "call of its _filter closure a yield point, and a harness-owned scheduler runs the Hypothesis-generated list of "
+    "{2,3,4} threads call get_converter(); a sys.settrace hook makes every call into and every line of the package's hook module "
+    "(first 9000 events per thread: the once-only forward-reference resolution and the start of hook registration) a yield point, and a harness-owned scheduler runs the Hypothesis-generated list of "
     "(thread, run length) segments (remainder sequential); oracle: no thread raises and every converter reproduces the "
     "battery outcomes of a sequentially created reference converter (computed in a separate fresh child). (B) histories "
     "(RuleBasedStateMachine, each history executed in a pristine forked process): create(fresh | Converter("
@@ -177,28 +177,31 @@ class Scheduler:
 
 def child_schedule(n: int, segments: List[Tuple[int, int]], battery: List[Tuple[str, Any]]) -> dict:
     t, h, c = pkg()
-    target_codes = {h._resolve_forward_references.__code__}
-    for const in h._resolve_forward_references.__code__.co_consts:
-        if hasattr(const, "co_name") and const.co_name == "_filter":
-            target_codes.add(const)
+    # yield points: every call into, and every line of, the package's hook module during get_converter() - whatever the
+    # functions are called (a refactoring of the first-use path must not blind the scheduler); capped per thread, so the
+    # per-converter registration code that follows the once-only part runs freely
+    hooks_file = h.__file__
+    CAP = 9000
     sched = Scheduler(n, segments)
     results: Dict[int, Any] = {}
     tls = threading.local()
 
     def tracer(frame, event, arg):
-        if event == "call" and frame.f_code in target_codes:
+        if event == "call" and frame.f_code.co_filename == hooks_file and tls.count < CAP:
+            tls.count += 1
             sched.yield_point(tls.tid)
-            if frame.f_code.co_name == "_resolve_forward_references":
-                return line_tracer
+            return line_tracer
         return None
 
     def line_tracer(frame, event, arg):
-        if event == "line":
+        if event == "line" and tls.count < CAP:
+            tls.count += 1
             sched.yield_point(tls.tid)
         return line_tracer
 
     def worker(tid: int) -> None:
         tls.tid = tid
+        tls.count = 0
         sys.settrace(tracer)
         try:
             conv = c.get_converter()
@@ -574,6 +577,20 @@ def replay(ctx: Ctx, path: str) -> int:
     with open(path) as f:
         rp = json.load(f)
     case = rp["case"]
+    if "ops" in case:
+        t, h, c = pkg()
+        fixed = fixed_battery()
+        battery = fixed + [(o[1], o[2]) for o in case["ops"] if o[0] == "add_input"]
+        ref = in_child(child_reference, battery)
+        res = in_child(child_history, case["ops"], fixed, ref["outcomes"]) if ref else None
+        if res is None:
+            print("[C19] replay: child timed out (inconclusive)")
+            return 2
+        if res["findings"]:
+            print(f"VIOLATION property=C19 replay={path}\n  {res['findings'][0][1][:300]}")
+            return 1
+        print("[C19] replay: history no longer fails")
+        return 0
     if "segments" not in case:
         run(ctx)
         return ctx.finish()
